@@ -11,6 +11,7 @@
 import PS.Theorems.C10
 import PS.Spec.Basic
 import PS.Proofs.Sort
+import PS.Proofs.Rank
 namespace PS
 
 def ordHolds (k : OrdKind) (a b : Int) : Prop :=
@@ -410,5 +411,39 @@ theorem C03_scheduleN_enforced (cfg : Config) (st : State) (ρ : Env) (hρ : Sat
   apply C03_scheduleN_lower cst.id ts n ivs kind ρ hk
   rw [← hb, ← C10_mandatory cst hopt]
   exact C10_constraint_part cfg st ρ hρ cst hc hop
+
+/-! ### TasksContiguous, read pairwise -/
+
+/-- starts and ends of the tasks are ordered alike -/
+def TasksComonotone (ρ : Env) (ts : List Task) : Prop :=
+  ∀ x ∈ ts, ∀ y ∈ ts, x.startV ρ < y.startV ρ → x.endV ρ < y.endV ρ
+
+/-- **C03 (TasksContiguous, pairwise).**  Whenever the listed tasks are ordered alike by start and by end, every task
+    of the list that ends at a non-negative instant is followed without a gap by its immediate successor by start
+    (if that one starts at a non-negative instant: negative instants are where unscheduled tasks are parked). -/
+theorem ContiguousOK_pairwise (ρ : Env) (ts : List Task) (h : ContiguousOK ρ ts) (hco : TasksComonotone ρ ts) :
+    ∀ a ∈ ts, ∀ b ∈ ts, a.startV ρ < b.startV ρ →
+      (∀ c ∈ ts, ¬ (a.startV ρ < c.startV ρ ∧ c.startV ρ < b.startV ρ)) →
+      0 ≤ a.endV ρ → 0 ≤ b.startV ρ → b.startV ρ = a.endV ρ := by
+  intro a ha b hb hab hsucc
+  obtain ⟨hS, hE, hg⟩ := h
+  have := gaps_pairwise (ts.map (fun x => (x.startV ρ, x.endV ρ))) (fun e s => 0 ≤ e → 0 ≤ s → s = e)
+    (by simpa [List.map_map, Function.comp_def] using hS)
+    (by simpa [List.map_map, Function.comp_def] using hE)
+    (by
+      intro x hx y hy hxy
+      obtain ⟨x', hx', rfl⟩ := List.mem_map.1 hx
+      obtain ⟨y', hy', rfl⟩ := List.mem_map.1 hy
+      exact hco x' hx' y' hy' hxy)
+    (by
+      intro i hi
+      simp only [List.length_map] at hi
+      simpa [List.map_map, Function.comp_def] using hg i hi)
+    (a.startV ρ, a.endV ρ) (b.startV ρ, b.endV ρ) (List.mem_map.2 ⟨a, ha, rfl⟩) (List.mem_map.2 ⟨b, hb, rfl⟩) hab
+    (by
+      intro c hc
+      obtain ⟨c', hc', rfl⟩ := List.mem_map.1 hc
+      exact hsucc c' hc')
+  exact this
 
 end PS
